@@ -148,6 +148,10 @@ def core_cases():
     # two waiters; the first one's caller goes away in the very loop iteration in which A's result is delivered
     out.append({'kind': 'async-thread', 'capacity': 1, 'workers': 1,
                 'callers': [dict(A), dict(W, cancel_on_done_of=0), dict(W, start=10)]})
+    # a non-batching worker that runs call() in its own thread pool, several requests inside it at once: each gets its own result
+    for kind in ('sync-thread', 'async-process'):
+        out.append({'kind': kind, 'capacity': 8, 'workers': 1, 'nst': 4,
+                    'callers': [dict(A, start=0, dur=[40, 5, 25, 10, 30, 15, 5, 20][i]) for i in range(8)]})
     # a worker raising StopIteration / the builtin TimeoutError: its own request fails with it, at once
     for kind in ('async-thread', 'sync-thread'):
         out.append({'kind': kind, 'capacity': 2, 'workers': 1, 'callers': [dict(A, dur=5, fail=8), dict(A, dur=5, fail=9, start=5), dict(W, start=10)]})
@@ -182,15 +186,16 @@ def gen_case(rng, idx):
     for s_ in callers:
         if s_['timeout'] == 'at-result':
             s_['timeout'] = s_['dur'] / 1000 + rng.choice([0, 0.0002, 0.001])
-    return {'kind': kind, 'capacity': cap, 'workers': rng.choice([1, 1, 2]), 'callers': callers}
+    return {'kind': kind, 'capacity': cap, 'workers': rng.choice([1, 1, 2]), 'callers': callers, 'nst': rng.choice([0, 0, 0, 3])}
 
 
 def _servlet(c):
     from mpservice.mpserver import ProcessServlet, ThreadServlet
     from harness.backlog_workers import BW
+    kw = {'nst': c['nst']} if c.get('nst') else {}      # the worker runs call() in its own thread pool
     if c['kind'].endswith('process'):
-        return ProcessServlet(BW, cpus=[None] * c['workers'])
-    return ThreadServlet(BW, num_threads=c['workers'])
+        return ProcessServlet(BW, cpus=[None] * c['workers'], **kw)
+    return ThreadServlet(BW, num_threads=c['workers'], **kw)
 
 
 def _classify(e):
